@@ -560,6 +560,57 @@ func (E *Engine) verifyFunc(key string) *FuncResult {
 		fr.Obs[name] = ob
 		fr.Checks++
 	}
+	if ct != nil && len(ct.TableKeys) > 0 {
+		// a package-level lookup table must hold exactly the documented keys (read from the package initialiser)
+		name := key + "/tablekeys"
+		ob := &ObResult{Name: name, Func: key, Subs: 1, Proved: true, BySolver: map[string]int{"syntactic": 1}}
+		var tns []string
+		for tn := range ct.TableKeys {
+			tns = append(tns, tn)
+		}
+		sort.Strings(tns)
+		for _, tn := range tns {
+			why := ""
+			g, _ := fn.Pkg.Members[tn].(*ssa.Global)
+			if g == nil {
+				why = "no package-level variable " + tn
+			} else if ents := E.globalMapEntries(g); ents == nil {
+				why = tn + " is not a map initialised with constant keys in the package initialiser"
+			} else if E.globalWriter(g, E.onceFuncs()) != "" {
+				why = tn + " is written outside the package initialiser"
+			} else {
+				have := map[string]bool{}
+				for _, e := range ents {
+					if e.K.Value != nil && e.K.Value.Kind() == constant.String {
+						have[constant.StringVal(e.K.Value)] = true
+					}
+				}
+				var missing, extra []string
+				want := map[string]bool{}
+				for _, k := range ct.TableKeys[tn] {
+					want[k] = true
+					if !have[k] {
+						missing = append(missing, k)
+					}
+				}
+				for k := range have {
+					if !want[k] {
+						extra = append(extra, k)
+					}
+				}
+				sort.Strings(extra)
+				if len(missing) > 0 || len(extra) > 0 {
+					why = fmt.Sprintf("%s: documented keys missing %v, undocumented keys %v", tn, missing, extra)
+				}
+			}
+			if why != "" {
+				ob.Proved = false
+				ob.Fails = append(ob.Fails, SubResult{Check: Check{Ob: name, Note: "lookup table differs from the documented one"}, Status: "refuted", Detail: why})
+			}
+		}
+		fr.Obs[name] = ob
+		fr.Checks++
+	}
 	if ct != nil && (len(ct.Keywords) > 0 || len(ct.Synonyms) > 0) {
 		// the spellings a production recognises: read off the string comparisons of the real SSA and compared
 		// with the list the contract takes from the property statement (a syntactic obligation)
